@@ -67,10 +67,6 @@ def gen_adaptor(rng, n, used, **opt):
 
 def gen_node(rng, depth, n, used, **opt):
   p_ad = opt.get('p_adaptor', 0.3)
-  if n == 2 and not opt.get('mf_n2', False):
-    # open finding (C02/C17): MFDeviceSet hands Device a 2-tuple of vectors as bounds; for a length-2 device
-    # validate_bounds reads it as a (2,2) table, i.e. transposed (wrong conduit bounds or ValueError)
-    p_ad = 0
   if depth <= 0 or rng.random() < opt.get('p_leaf', 0.35):
     if rng.random() < p_ad:
       return gen_adaptor(rng, n, used, **opt)
